@@ -538,16 +538,11 @@ def c08(d, run):
 def _liveness(d, run):
     r = d.tlc_mc("MC_Cache.tla", "MC_Cache_live.cfg", run.workdir, workers=4, timeout=1800)
     run.add_mc(r, "MC_Cache_live (liveness under weak fairness of processor and client continuation steps: every started call "
-                  "returns unless known finding D6 occurred; after close() both workers stop; after every handle was dropped without close() both "
+                  "returns (no exemption any more: D6 is repaired); after close() both workers stop; after every handle was dropped without close() both "
                   "workers stop; 2 clients x 2 calls of insert/wait/clear/close, handles dropped at any idle point)")
     if r["violated"]:
         run.violation("specification Cache.tla violates liveness %s in MC_Cache_live.cfg" % r["violated"], replay_lines=[r["out"][-8000:]])
-    if _thorough(run):
-        # the same property without the D6 exemption must FAIL (D6 is reachable; the liveness check bites)
-        w = d.tlc_mc("MC_Cache.tla", "MC_Cache_live_strict.cfg", run.workdir, workers=4, timeout=1800)
-        if not any(v.startswith("<temporal") for v in w["violated"]):
-            raise d.ToolError("MC_Cache_live_strict: the expected liveness violation (known finding D6: orphaned wait marker) was not found")
-        run.notes["liveness_witness"] = "MC_Cache_live_strict.cfg: %s, as expected (D6)" % w["violated"]
+
 
 
 def _drain_liveness(d, run):
@@ -581,10 +576,9 @@ def c10(d, run):
     _need(d, h, ["WaitSend", "WaitBlock", "PWait", "PCleanItem", "PStop"])
     run.nontrivial = len(getattr(run, "_distinct", ()))
     run.rule = ("non-trivial = wait() calls; each must return exactly when the specification releases its marker, with the "
-                "state at return equal to the specification's (barrier), and a waiter may stay blocked only under known finding D6")
+                "state at return equal to the specification's (barrier); a waiter left blocked at the end of a run (event Hung) is a violation")
     run.assumptions = BASE_ASSUME + ["liveness on the implementation side is judged at the end of each run: after everything that can "
                                      "run has run, a client still inside wg.wait() is reported as hung"]
-    _known(d, run, "D6")
 
 
 def c12(d, run):
